@@ -4,13 +4,14 @@
    install when the leader's log was compacted by a boot).
    Executable definitions only; proofs are in Proofs/C22.v. *)
 From Coq Require Import List NArith Bool.
-From RQ Require Import Model.C04.
+From RQ Require Export Model.C04.
 Import ListNotations.
 Open Scope N_scope.
 
 Record cluster := {
   nodes : list st;          (* node 0 is the leader; every node applies the same log *)
-  compacted : bool;         (* the leader's log no longer starts at entry 1 (boot snapshots with one trailing entry) *)
+  compacted : bool;         (* the leader's log no longer starts at entry 1 (a boot, or a snapshot of the leader taken
+                               with one trailing entry, compacts it) *)
 }.
 
 Definition cinit : cluster := {| nodes := [init]; compacted := false |}.
@@ -21,7 +22,8 @@ Inductive cop :=
 | CLoadSQL (c : list N)           (* load of SQL text: DROP/CREATE/INSERT statements executed through the log *)
 | CLoadBad                        (* load of data that is not a readable database *)
 | CBoot (c : list N)              (* boot: only on a single-node cluster *)
-| CSnap (i : nat)                 (* node i snapshots (persist succeeds) *)
+| CSnap (i : nat) (o : outcome) (compact : bool)
+                                  (* node i snapshots with persist outcome o; compact: the leader keeps one trailing log entry *)
 | CRestart (i : nat)              (* node i stops and starts *)
 | CJoin.                          (* a new node joins and catches up *)
 
@@ -59,7 +61,8 @@ Definition join_node (c : cluster) : option st :=
       else Some (fold_left apply_phys (log L) (blank (log L)))
   end.
 
-(* result codes: 0 done, 1 nothing to snapshot, 3 load rejected, 5 boot refused (not a single node), 6 no such node / cannot join *)
+(* result codes: 0 done, 1 nothing to snapshot, 3 load rejected, 5 boot refused (not a single node),
+   6 no such node / cannot join, 7 checkpoint blocked by a reader *)
 Definition cstep (c : cluster) (o : cop) : cluster * N :=
   match o with
   | CWrite ks v => (all_nodes c (OWrite ks v), 0)
@@ -73,9 +76,13 @@ Definition cstep (c : cluster) (o : cop) : cluster * N :=
       | [s] => ({| nodes := [fst (step s (OBoot d))]; compacted := true |}, 0)
       | _ => (c, 5)
       end
-  | CSnap i =>
+  | CSnap i out compact =>
       match nth_error (nodes c) i with
-      | Some s => ({| nodes := at_node (nodes c) i (OSnap POk); compacted := compacted c |}, snd (step s (OSnap POk)))
+      | Some s =>
+          let res := snd (step s (OSnap out)) in
+          ({| nodes := at_node (nodes c) i (OSnap out);
+              compacted := compacted c
+                           || (compact && Nat.eqb i 0 && (res =? 0) && match out with POk => true | _ => false end) |}, res)
       | None => (c, 6)
       end
   | CRestart i =>
